@@ -4,7 +4,7 @@ From TS Require Import Model.Str Model.Outcome Model.Unicode Model.Types Model.P
                        Model.Lang.TypeScript Model.Lang.Kotlin Model.Lang.Scala Model.Lang.Go Spec.C09Spec.
 From TS Require Import Model.Lang.Swift Model.Lang.Python.
 From TS Require Proofs.C09Common Proofs.C09Recon Proofs.C09Refs Proofs.C09_KotlinFile Proofs.C09Witness Proofs.C09Final.
-From TS Require Proofs.C09_TypeScript Proofs.C09_Scala Proofs.C09_Python Proofs.C09_Swift Proofs.C09_Go.
+From TS Require Proofs.C09_TypeScript Proofs.C09_Scala Proofs.C09_Python Proofs.C09_Swift Proofs.C09_Go Proofs.GoAcronyms Proofs.C09_GoAcr.
 Import ListNotations.
 From TS Require Props.C09.
 
@@ -108,6 +108,35 @@ Goal forall (uc : unicode) (cfg : go_config) (pd : parsed),
       good_C09 Go [] pd (c09_observe Go fd) = true.
 Proof. exact Props.C09.C09_no_rename_Go_partial. Qed.
 Print Assumptions Props.C09.C09_no_rename_Go_partial.
+Goal forall (uc : unicode), unicode_ok uc -> forall (acrs : list str) (name : str),
+    forallb (forallb is_ascii) acrs = true -> forallb is_ascii name = true ->
+    go_convert_acronyms_to_uppercase uc acrs name = Ok (c09_acr_conv acrs name).
+Proof. exact Props.C09.C09_go_conv_is_model. Qed.
+Print Assumptions Props.C09.C09_go_conv_is_model.
+Goal forall (acrs : list str) (s : str), c09_name_eqb Go (c09_acr_conv acrs s) s = true.
+Proof. exact Props.C09.C09_go_conv_case_only. Qed.
+Print Assumptions Props.C09.C09_go_conv_case_only.
+Goal forall (acrs : list str) (pd : parsed) (obs : c09_obs),
+    dom_C09 Go [] pd = true -> known_C09 Go [] acrs pd = None ->
+    Proofs.C09_GoAcr.c09_go_shape acrs pd obs -> good_C09 Go [] pd obs = true.
+Proof. exact Props.C09.C09_Go_shape_good. Qed.
+Print Assumptions Props.C09.C09_Go_shape_good.
+Goal forall (uc : unicode), unicode_ok uc ->
+  forall (cfg : go_config) (pd : parsed),
+    forallb (forallb Proofs.GoAcronyms.ga_alnum) (go_uppercase_acronyms cfg) = true ->
+    Proofs.C09_GoAcr.c09_go_ascii cfg pd = true ->
+    dom_C09 Go [] pd = true -> known_C09 Go [] (go_uppercase_acronyms cfg) pd = None ->
+    forall fd : file_decls, go_file_decls uc cfg (Proofs.C09Recon.c09_reconciled pd) = Ok fd ->
+      good_C09 Go [] pd (c09_observe Go fd) = true.
+Proof. exact Props.C09.C09_Go. Qed.
+Print Assumptions Props.C09.C09_Go.
+Goal forallb (forallb Proofs.GoAcronyms.ga_alnum) Proofs.C09Witness.w_acr_list = true /\
+  Proofs.C09_GoAcr.c09_go_ascii (Proofs.C09Witness.w_go Proofs.C09Witness.w_acr_list) Proofs.C09Witness.w_acr_clean = true /\
+  Proofs.C09Witness.c09_nonvacuous_go Proofs.C09Witness.w_acr_list Proofs.C09Witness.w_acr_clean
+    (go_file_decls uc_exec (Proofs.C09Witness.w_go Proofs.C09Witness.w_acr_list) (Proofs.C09Recon.c09_reconciled Proofs.C09Witness.w_acr_clean))
+    [lit "UserID"; lit "APIEvent"; lit "APIEventV1Inner"; lit "Holder"] = true.
+Proof. exact Props.C09.C09_Go_nonvacuous_acronyms. Qed.
+Print Assumptions Props.C09.C09_Go_nonvacuous_acronyms.
 Goal forall (L : lang) (pfx : str) (pd : parsed),
     (forall e, In e (c09_entities pd) -> c09_renamed_away (c9e_id e) = false) ->
     (forall a, In a (p_aliases pd) -> c09_inline_generic_class L pfx a = None) ->
@@ -167,6 +196,11 @@ Goal Proofs.C09Witness.c09_witness Go [] Proofs.C09Witness.w_acrs Proofs.C09Witn
     "C09-go-acronym-inner" = true.
 Proof. exact Props.C09.C09_go_acronym_inner_refuted. Qed.
 Print Assumptions Props.C09.C09_go_acronym_inner_refuted.
+Goal Proofs.C09Witness.c09_witness Go [] [lit "ID"] Proofs.C09Witness.w_prog_gen
+    (go_file_decls uc_exec (Proofs.C09Witness.w_go [lit "ID"]) (Proofs.C09Recon.c09_reconciled Proofs.C09Witness.w_prog_gen))
+    "C09-go-acronym-generic" = true.
+Proof. exact Props.C09.C09_go_acronym_generic_refuted. Qed.
+Print Assumptions Props.C09.C09_go_acronym_generic_refuted.
 Goal dom_C09 Kotlin (lit "KP") Proofs.C09Witness.w_clean = true /\ known_C09 Kotlin (lit "KP") [] Proofs.C09Witness.w_clean = None /\
   exists fd, kt_file_decls uc_exec Proofs.C09Witness.w_kt (Proofs.C09Recon.c09_reconciled Proofs.C09Witness.w_clean) = Ok fd /\
              Nat.leb 8 (List.length (c9_refs (c09_observe Kotlin fd))) = true /\
